@@ -20,7 +20,7 @@ NPROC = int(os.environ.get("VERIF_JOBS", "16"))
 GOENV = dict(os.environ, GOFLAGS="-mod=mod", GOPROXY="off", GOSUMDB="off", GOTOOLCHAIN="local",
              GOCACHE=os.path.join(BUILD, "gocache"))
 
-HARNESS_CMDS = ["codec", "session", "stream"]
+HARNESS_CMDS = ["codec", "session", "stream", "extract", "stress", "race"]
 
 TRUSTED_BASE = [
     "Coq 8.16.1 kernel (coqc; vm_compute used for finite-table facts; native_compute not used)",
@@ -130,9 +130,10 @@ def ensure_built(verbose=False):
             with open(sum_src) as f:
                 write_if_changed(os.path.join(HARNESS, "go.sum"), f.read())
         for cmd in HARNESS_CMDS:
-            tags = "verif"
-            sh(["go", "build", "-tags", tags, "-o", os.path.join(BIN, cmd), "./cmd/" + cmd],
-               cwd=HARNESS, env=GOENV, timeout=900)
+            args = ["go", "build", "-tags", "verif"]
+            if cmd == "race":
+                args.append("-race")
+            sh(args + ["-o", os.path.join(BIN, cmd), "./cmd/" + cmd], cwd=HARNESS, env=GOENV, timeout=900)
         # 2. regenerated Coq inputs
         regen()
         # 3. Coq development (full .vo build)
